@@ -171,6 +171,11 @@ fn break_hunk_final_newline(h: &mut HHunk, match_tag: u8) -> bool {
     }
 }
 
+/// Set by the properties whose oracle compares two runs that differ only in --dry-run or in presentation options
+/// (C10, C14). Such patches need not apply at fuzz 0 (a hunk whose context reaches into the previous hunk's change is
+/// "misordered"), so checks that rely on the model's outcome, or vary --fuzz between runs (C09), do not use them.
+pub static TIGHT_SPLIT: std::sync::atomic::AtomicBool = std::sync::atomic::AtomicBool::new(false);
+
 pub fn gen_ws(ch: &mut Chooser, cx: &mut CaseCtx, o: &WsGenOpts) -> WsCase {
     let alpha = match ch.weighted(&[2, 4, 1]) {
         0 => Alphabet::Small(3),
@@ -269,7 +274,16 @@ pub fn gen_ws(ch: &mut Chooser, cx: &mut CaseCtx, o: &WsGenOpts) -> WsCase {
                 kind = if existing.is_empty() { 1 } else { 0 };
             }
             let c = *ch.pick(&[3usize, 3, 3, 2, 1, 1, 0]);
-            let merge = if ch.chance(1, 4) { Merge::SplitOverlap } else { Merge::Gnu };
+            // hand-merged patches: separate hunks for neighbouring changes, whose context shows the old version of a
+            // line that the neighbouring hunk changes (only in the checks that compare runs with each other)
+            let merge = if TIGHT_SPLIT.load(std::sync::atomic::Ordering::Relaxed) && ch.chance(1, 5) {
+                feat.push("hunks-with-context-over-a-neighbouring-change".into());
+                Merge::SplitTight
+            } else if ch.chance(1, 4) {
+                Merge::SplitOverlap
+            } else {
+                Merge::Gnu
+            };
             match kind {
                 1 => {
                     // create
